@@ -45,7 +45,8 @@ NoCall == [fn |-> "none"]
 
 InitG == [scen |-> "", mode |-> "clean", src |-> <<>>, snap |-> <<>>, partial |-> {}, owner |-> <<>>, winners |-> <<>>, calls |-> <<>>,
           saved |-> <<>>, healthy |-> EmptyFs, damaged |-> FALSE, dmgdel |-> FALSE, dmghow |-> "",
-          dmgkey |-> [t |-> "", b |-> -1, n |-> -1, h |-> "", s |-> ""], adopt |-> FALSE]
+          dmgkey |-> [t |-> "", b |-> -1, n |-> -1, h |-> "", s |-> ""], adopt |-> FALSE,
+          torn |-> {}]   \* versions half removed by a delete killed inside remove_dir_all
 
 \* (TLC cannot hold values of different types in one set: where one monitor has several shapes of
 \* detail they are turned into strings where the monitor is stated)
@@ -54,14 +55,16 @@ If(c, S) == IF c THEN S ELSE {}
 
 \* `partial` = versions written under injected storage faults: they may lack entries (with an
 \* error reported), so they are held to RecordedBytes and NoDangling but not to their snapshot
-StateMonitors(f, mode, snap, partial, keyt) ==
+\* (what a kill inside the removal of a version left of that version is not something conserve
+\* wrote: the format rules are not applied to it)
+StateMonitors(f, mode, snap, partial, keyt, torn) ==
     IF mode = "clean" THEN
-           {<<"Format", x>> : x \in FormatViol(f)}
+           {<<"Format", x>> : x \in {v \in FormatViol(f) : v[2] \notin torn}}
       \cup {<<"NoDangling", x>> : x \in Dangling(f, Bands(f))}
       \cup {<<"SnapRestores", b>> : b \in SnapBroken(f, snap, partial)}
       \cup (IF keyt = "Hunk" THEN {<<"RecordedBytes", x>> : x \in RecordedWrong(f, snap)} ELSE {})
     ELSE IF mode = "fault" THEN
-           {<<"Format", x>> : x \in FormatViol(f)}
+           {<<"Format", x>> : x \in {v \in FormatViol(f) : v[2] \notin torn}}
       \cup {<<"NoDangling", x>> : x \in Dangling(f, Bands(f))}
       \cup {<<"SnapRestores", b>> : b \in SnapBroken(f, snap, partial)}
       \cup (IF keyt = "Hunk" THEN {<<"RecordedBytes", x>> : x \in RecordedWrong(f, snap)} ELSE {})
@@ -144,8 +147,14 @@ DoOp(r) ==
         headw == c.fn = "backup" /\ r.verb = "write" /\ r.key.t = "Head" /\ r.res = "ok" /\ r.inj = ""
                  /\ StateOf(fs, r.key) \in {"absent", "empty"}
         claims == firstmaker \/ headw
-        snap2 == IF claims THEN Put(g.snap, r.key.b, c.want) ELSE g.snap
-        part2 == IF claims THEN (IF c.injected THEN g.partial \cup {r.key.b} ELSE g.partial \ {r.key.b}) ELSE g.partial
+        \* a file removed by the part of a remove_dir_all that happened before a kill: the version
+        \* was being deleted, it is forgotten by the snapshot ghost and remembered as torn
+        tornop == r.inj = "torn" /\ r.key.b \in Bands(fs)
+        torn2 == IF tornop THEN g.torn \cup {r.key.b} ELSE g.torn
+        snap1 == IF tornop THEN [x \in (DOMAIN g.snap) \ {r.key.b} |-> g.snap[x]] ELSE g.snap
+        snap2 == IF claims THEN Put(snap1, r.key.b, c.want) ELSE snap1
+        part1 == IF tornop THEN g.partial \ {r.key.b} ELSE g.partial
+        part2 == IF claims THEN (IF c.injected THEN part1 \cup {r.key.b} ELSE part1 \ {r.key.b}) ELSE part1
         own2  == IF headw THEN Put(g.owner, r.key.b, r.actor) ELSE g.owner
         \* a deleted version's id may be used again: forget what was known about it
         gone  == Bands(fs) \ Bands(f2)
@@ -157,13 +166,13 @@ DoOp(r) ==
         changed == f2 # fs
     IN
     /\ fs' = f2
-    /\ g' = [g EXCEPT !.snap = Forget(snap2), !.partial = part2 \ gone, !.owner = Forget(own2),
+    /\ g' = [g EXCEPT !.snap = Forget(snap2), !.partial = part2 \ gone, !.owner = Forget(own2), !.torn = torn2 \ gone,
                       !.winners = Forget(@),
                       !.calls = IF c.fn = "none" THEN @ ELSE Put(@, r.actor, c2)]
     /\ viol' = viol
           \cup UNION {V(x[1], x[2]) : x \in OpMonitors(r, c)}
           \cup (IF changed /\ ~g.damaged
-                THEN UNION {V(x[1], x[2]) : x \in StateMonitors(f2, g.mode, snap2, part2, r.key.t)}
+                THEN UNION {V(x[1], x[2]) : x \in StateMonitors(f2, g.mode, snap2, part2, r.key.t, torn2)}
                 ELSE {})
 
 (***************************************************************************)
@@ -194,7 +203,8 @@ BackupRetMonitors(r, c) ==
         b == c.band
         good == b # -1 /\ Complete(fs, b) /\ RestoreOf(fs, b) = c.want
         \* an unreadable head in the archive is legitimately grumbled about when stitching the basis
-        cleanStart == \A x \in Bands(c.fs0) : HeadOK(c.fs0, x)
+        \* (so is what a killed delete left of a version: missing hunks are reported when it is stitched)
+        cleanStart == g.torn = {} /\ \A x \in Bands(c.fs0) : HeadOK(c.fs0, x)
         faultfree == g.mode = "clean" /\ ~c.injected /\ ~g.damaged
     IN
        \* after a simulated kill the process keeps running with a dead storage; what it does
@@ -209,14 +219,14 @@ BackupRetMonitors(r, c) ==
   \cup If(g.damaged /\ g.dmghow \in {"delete", "trunc0"} /\ ~c.injected /\ ~r.panic /\ (r.res # "ok" \/ r.errors # 0 \/ ~good),
           {<<"BackupAfterDamage", <<g.dmghow, r.res, r.errors, r.mon_list>> >>})
   \* C18: the change callback names the added / changed / deleted files
-  \cup (IF faultfree /\ success /\ ~r.crashed /\ AllReadable(c.fs0, BasisList(c.fs0))
+  \cup (IF faultfree /\ success /\ ~r.crashed /\ g.torn = {} /\ AllReadable(c.fs0, BasisList(c.fs0))
         THEN LET A == TreeOfEntries(c.fs0, BasisList(c.fs0))
                  got == {<<r.changes[i].p, r.changes[i].ch>> : i \in {j \in 1..Len(r.changes) : r.changes[j].ch # "Unchanged"}}
                  exp == CallbackExpected(A, c.want)
              IN If(got # exp, {<<"CallbackWrong", <<got \ exp, exp \ got>> >>})
         ELSE {})
   \cup If(r.res = "ok" /\ ~r.crashed /\ r.written_blocks # c.nblk, {<<"WrittenBlocksStat", <<r.written_blocks, c.nblk>> >>})
-  \cup If(success /\ ~r.crashed /\ faultfree /\ b # -1,
+  \cup If(success /\ ~r.crashed /\ faultfree /\ b # -1 /\ g.torn = {},
           {<<"NotReused", p>> : p \in NotReused(c.fs0, fs, b)}
           \cup If(AllReused(c.fs0, fs, b) /\ c.nblk # 0, {<<"UnchangedWroteBlocks", c.nblk>>}))
 
@@ -297,7 +307,9 @@ RestoreMonitors(r) ==
         es  == IF b # -1 /\ HeadOK(fs, b) THEN Listing(fs, b, S, M) ELSE <<>>
         \* restoring a single nested file by path is not promised to create its parents (C12)
         subtreeIsDir == ~r.has_subtree \/ es = <<>> \/ \E e \in SeqRange(es) : e.p = S /\ e.k = "Dir"
+        \* (a version half removed by a killed delete, or one stitched onto it, is not judged)
         judged == b # -1 /\ HeadOK(fs, b) /\ ~g.damaged /\ r.dest # "nonempty" /\ ConsistentBelow(es, S) /\ subtreeIsDir
+                  /\ ~\E x \in g.torn : x <= b
         \* the destination directory itself always exists; it only counts when the
         \* listing has an entry for the root
         T1  == IF \E e \in SeqRange(es) : e.p = Root THEN T0
@@ -310,7 +322,7 @@ RestoreMonitors(r) ==
   \cup If(r.timeout, {<<"Hang", "restore">>})
   \cup If(~r.outside_unchanged, {<<"RestoreEscaped", 0>>})
   \cup If(r.dest = "nonempty" /\ ~r.overwrite /\ (r.res = "ok" \/ ~r.dest_unchanged), {<<"ClobberedDestination", r.res>>})
-  \cup If(r.band = -1 /\ ~g.damaged /\ lc # -1 /\ (r.res # "ok" \/ r.picked # lc), {<<"LatestWrong", <<r.picked, lc>> >>})
+  \cup If(r.band = -1 /\ ~g.damaged /\ lc # -1 /\ lc \notin g.torn /\ (r.res # "ok" \/ r.picked # lc), {<<"LatestWrong", <<r.picked, lc>> >>})
   \* (an unreadable head met while stitching is legitimately grumbled about)
   \cup If(judged /\ AllReadable(fs, es) /\
              (r.res # "ok" \/ r.picked # b \/
@@ -340,8 +352,8 @@ RestoreMonitors(r) ==
           {<<"RestoreDiffersFromSnapshot", <<b, TreeDiff(g.snap[b], T)>> >>})
 
 ListMonitors(r) ==
-    LET b == r.band
-        judged == b >= 0 /\ ~g.damaged
+    LET b == IF r.band = -2 THEN LastBand(fs) ELSE IF r.band = -1 THEN LatestClosed(fs) ELSE r.band
+        judged == b >= 0 /\ ~g.damaged /\ ~\E x \in g.torn : x <= b
     IN
        If(r.panic, {<<"Panic", r.pmsg>>})
   \cup If(r.timeout \/ r.res = "err:Unbounded", {<<"Hang", "list">>})
@@ -362,7 +374,7 @@ ValidateMonitors(r) ==
   \cup If(r.timeout, {<<"Hang", "validate">>})
   \* healthy = produced by fault-free operations, interrupted backups counted once their
   \* header exists (the statement's wording); a head-less leftover is outside the clause
-  \cup If(~g.damaged /\ g.mode = "clean" /\ loud /\ (\A b \in Bands(fs) : HeadOK(fs, b)),
+  \cup If(~g.damaged /\ g.mode = "clean" /\ loud /\ g.torn = {} /\ (\A b \in Bands(fs) : HeadOK(fs, b)),
           {<<"ValidateFalseAlarm", <<r.res, r.mon_list>> >>})
   \* Damage must be reported when some version no longer restores exactly -- unless what is left is
   \* itself a state fault-free operation can produce (e.g. the last hunk of an interrupted version
@@ -399,7 +411,7 @@ DiffMonitors(r) ==
         A  == TreeOfEntries(fs, es)
         B  == g.src
         got == {<<r.changes[i].p, r.changes[i].ch>> : i \in 1..Len(r.changes)}
-        judged == b # -1 /\ HeadOK(fs, b) /\ ~g.damaged /\ AllReadable(fs, es) /\ r.excl = <<>>
+        judged == b # -1 /\ HeadOK(fs, b) /\ ~g.damaged /\ AllReadable(fs, es) /\ r.excl = <<>> /\ ~\E x \in g.torn : x <= b
     IN
        If(r.panic, {<<"Panic", r.pmsg>>})
   \cup If(r.timeout, {<<"Hang", "diff">>})
@@ -438,14 +450,14 @@ DoDamage(r) ==
     /\ UNCHANGED <<fs, viol>>
 
 DoSave(r) ==
-    /\ g' = [g EXCEPT !.saved = Append(@, [fs |-> fs, src |-> g.src, snap |-> g.snap, partial |-> g.partial, owner |-> g.owner, winners |-> g.winners,
+    /\ g' = [g EXCEPT !.saved = Append(@, [fs |-> fs, src |-> g.src, snap |-> g.snap, partial |-> g.partial, owner |-> g.owner, winners |-> g.winners, torn |-> g.torn,
                                             healthy |-> g.healthy, damaged |-> g.damaged, dmgdel |-> g.dmgdel, dmghow |-> g.dmghow, dmgkey |-> g.dmgkey])]
     /\ UNCHANGED <<fs, viol>>
 
 DoReset(r) ==
     LET s == g.saved[Len(g.saved)] IN
     /\ fs' = s.fs
-    /\ g' = [g EXCEPT !.src = s.src, !.snap = s.snap, !.partial = s.partial, !.owner = s.owner, !.winners = s.winners, !.calls = <<>>,
+    /\ g' = [g EXCEPT !.src = s.src, !.snap = s.snap, !.partial = s.partial, !.owner = s.owner, !.winners = s.winners, !.calls = <<>>, !.torn = s.torn,
                       !.healthy = s.healthy, !.damaged = s.damaged, !.dmgdel = s.dmgdel, !.dmghow = s.dmghow, !.dmgkey = s.dmgkey]
     /\ viol' = viol
 
@@ -491,7 +503,7 @@ DoApath(r) ==
 \* decoded archive (compared here)
 DoNewArchive(r) ==
     /\ fs' = EmptyFs
-    /\ g' = [g EXCEPT !.snap = <<>>, !.partial = {}, !.owner = <<>>, !.winners = <<>>, !.calls = <<>>]
+    /\ g' = [g EXCEPT !.snap = <<>>, !.partial = {}, !.owner = <<>>, !.winners = <<>>, !.calls = <<>>, !.torn = {}]
     /\ viol' = viol
 
 DoDigest(r) ==
